@@ -600,7 +600,7 @@ func RunBoundsControls(r *Report) {
 	}
 	var fns []*ssa.Function
 	for _, f := range cw.LibFuncs() {
-		if strings.HasPrefix(f.Name(), "ctlBounds") {
+		if strings.HasPrefix(f.Name(), "ctlBounds") && f.Parent() == nil {
 			fns = append(fns, f)
 		}
 	}
@@ -645,6 +645,6 @@ func RunBoundsControls(r *Report) {
 			}
 		}
 	}
-	r.Floor("provercontrol", 25)
+	r.Floor("provercontrol", 53)
 	_, _ = nBad, nGood
 }
